@@ -15,7 +15,7 @@ from xfabsa import core, numeric as N
 from xfabsa.core import AnalysisError
 from xfabsa.poly import Rat
 from xfabsa.symeval import Arr, Obj, Opaque, RaiseReached, scalar, materialise, sym_array
-from xfabsa.objeval import ObjEvaluator, FileSystem, PyRaise, Sym, SStr, Text, Field, num_atom, okey, exc_name_of
+from xfabsa.objeval import ObjEvaluator, FileSystem, PyRaise, Sym, SStr, Text, Field, TextOpaque, num_atom, okey, exc_name_of
 
 NODE = ast.Constant(value=0)
 NODE.lineno = 0
@@ -278,19 +278,26 @@ def run(ctx):
                       % (lit_ + "(12)", okey(g1[1]), lit_, okey(g2[1]), float(v_)), rwhere)
         finally:
             SPELL[0] = None
-    # ---- remove_esd
-    r = Reader(mod, [])
-    got1 = r.outcome("remove_esd", txt("q", "12"))
-    got2 = r.outcome("remove_esd", txt("q"))
-    got3 = r.outcome("remove_esd", "1.25(3)")
-    ctx.check(got1 == ("ok", got1[1]) and same(got1[1], val("q")) and got2[0] == "ok" and same(got2[1], val("q"))
-              and got3[0] == "ok" and same(got3[1], Rat.const(Fraction(5, 4))), "C17:esd:remove_esd",
-              "remove_esd is not float(a) / float(a[:a.find('(')]): 'q(12)' -> %s, 'q' -> %s, '1.25(3)' -> %s"
-              % (okey(got1[1]), okey(got2[1]), okey(got3[1])), rwhere)
-    for t0 in (None, "Biso", "Bani", "Uiso", "Uani"):
-        for multi in ("new", "old", "none"):
-            nsc += 1
-            scenario(t0, multi)
+    # the abstract runs: every number a symbolic text.  A reader that looks at the characters of a number (a regular expression)
+    # cannot be followed there; the spelled runs above then carry the verdict, and that is said in the evidence
+    try:
+        # ---- remove_esd
+        r = Reader(mod, [])
+        got1 = r.outcome("remove_esd", txt("q", "12"))
+        got2 = r.outcome("remove_esd", txt("q"))
+        got3 = r.outcome("remove_esd", "1.25(3)")
+        ctx.check(got1 == ("ok", got1[1]) and same(got1[1], val("q")) and got2[0] == "ok" and same(got2[1], val("q"))
+                  and got3[0] == "ok" and same(got3[1], Rat.const(Fraction(5, 4))), "C17:esd:remove_esd",
+                  "remove_esd is not float(a) / float(a[:a.find('(')]): 'q(12)' -> %s, 'q' -> %s, '1.25(3)' -> %s"
+                  % (okey(got1[1]), okey(got2[1]), okey(got3[1])), rwhere)
+        for t0 in (None, "Biso", "Bani", "Uiso", "Uani"):
+            for multi in ("new", "old", "none"):
+                nsc += 1
+                scenario(t0, multi)
+    except TextOpaque as e:
+        ctx.note("abstract CIF run not possible (%s): the CIF rules are decided on the spelled-out blocks only" % e)
+        ctx.not_decided.append("CIF numbers in spellings other than the %d representative ones (the reader inspects the characters of a number)" % len(SPELLINGS))
+        SPELL[0] = "exponent"          # the remaining CIF rules (defaults, unreadable entries, block choice) on spelled blocks too
     ctx.extra["cif_scenarios"] = nsc
     # no atom-type loop / unreadable dispersion / no occupancy column
     r = Reader(mod, [])
@@ -340,6 +347,7 @@ def run(ctx):
     ctx.check(ok1 and ok2, "C17:block:CIFread-source",
               "the block read is not CIFopen(ciffile, cifblkname) when a file is given, else the block passed / opened before (%s, %s, %s)"
               % ((kind, exc), k2[0], k3), where)
+    SPELL[0] = None
     # ---- PDB
     pwhere = core.loc(mod, mod.method("build_atomlist", "PDBread"))
     mlog = []
@@ -410,6 +418,7 @@ def run(ctx):
                         "site multiplicity values themselves (C15)"]
     ctx.assumptions += ["IUCr core CIF dictionary key names; wwPDB format v3.3 column table",
                         "a number's text contains no parenthesis, blank or letter; float(text of x) == x"]
+    SPELL[0] = None
     from xfabsa import numeric as _NH
     _NH.hazard_rule(ctx, 'C17')
     return ("CIFread evaluated by E7 on two-site model blocks for %d configurations (5 ADP types x 3 multiplicity-key cases, the second "
